@@ -193,21 +193,21 @@ Prog(ls, i, k, sc) ==
 VARIABLES scn,      \* the scenario (chosen in the first step)
           now,      \* the clock
           phase,    \* "choose" | "idle" | "reading" | "read" | "running" | "handled" | "closed"
-          k,        \* requests parsed so far
+          np,        \* requests parsed so far
           nsent,    \* requests the client has sent so far
           finned,   \* the client has shut its writing side down
           prog, pc, \* the onion of the current request and the next instruction
           wake,     \* -1, or the tick at which the sleep the onion is suspended in ends
-          stack,    \* open frames, outermost first: <<"fdrop", id, 0>> <<"hdrop", k, 0>> <<"timer", layer, deadline>>
+          stack,    \* open frames, outermost first: <<"fdrop", id, 0>> <<"hdrop", request, 0>> <<"timer", layer, deadline>>
           res,      \* "body" | "timeout": what the part that returned last returned
           sdl,      \* the session deadline in force
           hist, clh \* history: server side events (with ghosts), client side events
-vars == <<scn, now, phase, k, nsent, finned, prog, pc, wake, stack, res, sdl, hist, clh>>
+vars == <<scn, now, phase, np, nsent, finned, prog, pc, wake, stack, res, sdl, hist, clh>>
 
-Start(s) == /\ scn' = s /\ now' = 0 /\ phase' = "idle" /\ k' = 0 /\ nsent' = 0 /\ finned' = FALSE /\ prog' = <<>> /\ pc' = 1
+Start(s) == /\ scn' = s /\ now' = 0 /\ phase' = "idle" /\ np' = 0 /\ nsent' = 0 /\ finned' = FALSE /\ prog' = <<>> /\ pc' = 1
             /\ wake' = -1 /\ stack' = <<>> /\ res' = "body" /\ sdl' = s.S /\ hist' = <<>> /\ clh' = <<>>
 Blank == [S |-> 1, app |-> <<>>, sub |-> <<>>, conn |-> <<>>, fin |-> 0]
-Init == /\ scn = Blank /\ now = 0 /\ phase = "choose" /\ k = 0 /\ nsent = 0 /\ finned = FALSE /\ prog = <<>> /\ pc = 1
+Init == /\ scn = Blank /\ now = 0 /\ phase = "choose" /\ np = 0 /\ nsent = 0 /\ finned = FALSE /\ prog = <<>> /\ pc = 1
         /\ wake = -1 /\ stack = <<>> /\ res = "body" /\ sdl = 0 /\ hist = <<>> /\ clh = <<>>
 
 Log(e, a, b) == hist' = Append(hist, Ev(now, e, a, b))
@@ -217,22 +217,22 @@ DropsOfStack(st) == LET fr == SelectSeq(st, LAMBDA x : x[1] # "timer") IN [j \in
 ClientSendDue == nsent < Len(scn.conn) /\ scn.conn[nsent + 1].at =< now
 ClientFinDue == scn.fin > 0 /\ ~finned /\ nsent = Len(scn.conn) /\ scn.fin =< now
 ClientSend == /\ phase \notin {"choose", "closed"} /\ ClientSendDue /\ nsent' = nsent + 1
-              /\ UNCHANGED <<scn, now, phase, k, finned, prog, pc, wake, stack, res, sdl, hist, clh>>
+              /\ UNCHANGED <<scn, now, phase, np, finned, prog, pc, wake, stack, res, sdl, hist, clh>>
 ClientFin == /\ phase \notin {"choose", "closed"} /\ ClientFinDue /\ finned' = TRUE
-             /\ UNCHANGED <<scn, now, phase, k, nsent, prog, pc, wake, stack, res, sdl, hist, clh>>
+             /\ UNCHANGED <<scn, now, phase, np, nsent, prog, pc, wake, stack, res, sdl, hist, clh>>
 
 \* --- Request::read
 ReadStart == /\ phase = "idle" /\ phase' = "reading"
-             /\ UNCHANGED <<scn, now, k, nsent, finned, prog, pc, wake, stack, res, sdl, hist, clh>>
-ReadDone == /\ phase = "reading" /\ nsent > k /\ phase' = "read"
-            /\ UNCHANGED <<scn, now, k, nsent, finned, prog, pc, wake, stack, res, sdl, hist, clh>>
-ReadEof == /\ phase = "reading" /\ nsent = k /\ finned /\ phase' = "closed"
+             /\ UNCHANGED <<scn, now, np, nsent, finned, prog, pc, wake, stack, res, sdl, hist, clh>>
+ReadDone == /\ phase = "reading" /\ nsent > np /\ phase' = "read"
+            /\ UNCHANGED <<scn, now, np, nsent, finned, prog, pc, wake, stack, res, sdl, hist, clh>>
+ReadEof == /\ phase = "reading" /\ nsent = np /\ finned /\ phase' = "closed"
            /\ hist' = hist \o <<Ev(now, "close", 0, 0), Ev(now, "returned", 0, 0)>> /\ clh' = Append(clh, Ev(now, "eof", 0, 0))
-           /\ UNCHANGED <<scn, now, k, nsent, finned, prog, pc, wake, stack, res, sdl>>
+           /\ UNCHANGED <<scn, now, np, nsent, finned, prog, pc, wake, stack, res, sdl>>
 \* --- the session loop: Ok(Some) => Router::handle
-Parsed == /\ phase = "read" /\ k' = k + 1 /\ phase' = "running"
-          /\ prog' = Prog(OnionOf(scn, scn.conn[k + 1]), 1, k + 1, scn.conn[k + 1].script) /\ pc' = 1 /\ wake' = -1 /\ stack' = <<>> /\ res' = "body"
-          /\ Log("parsed", scn.conn[k + 1].close, 0)
+Parsed == /\ phase = "read" /\ np' = np + 1 /\ phase' = "running"
+          /\ prog' = Prog(OnionOf(scn, scn.conn[np + 1]), 1, np + 1, scn.conn[np + 1].script) /\ pc' = 1 /\ wake' = -1 /\ stack' = <<>> /\ res' = "body"
+          /\ Log("parsed", scn.conn[np + 1].close, 0)
           /\ sdl' = (IF PER_REQUEST_DEADLINE THEN now + scn.S ELSE sdl)
           /\ UNCHANGED <<scn, now, nsent, finned, clh>>
 \* --- fangs and handler: the next instruction of the onion (only when not suspended)
@@ -251,10 +251,10 @@ Exec == /\ phase = "running" /\ wake = -1 /\ pc =< Len(prog)
                ELSE Log(ins.op, ins.a, ins.b))
            \* the lazy variant: the clock is looked at when the inner part has returned
            /\ res' = (IF ins.op = "disarm" /\ ~EAGER_CANCEL /\ now > stack[Len(stack)][3] THEN "timeout" ELSE res)
-        /\ UNCHANGED <<scn, now, phase, k, nsent, finned, prog, sdl, clh>>
+        /\ UNCHANGED <<scn, now, phase, np, nsent, finned, prog, sdl, clh>>
 \* the sleep the onion is suspended in is over
 Wake == /\ phase = "running" /\ wake # -1 /\ wake =< now /\ wake' = -1 /\ pc' = pc + 1
-        /\ UNCHANGED <<scn, now, phase, k, nsent, finned, prog, stack, res, sdl, hist, clh>>
+        /\ UNCHANGED <<scn, now, phase, np, nsent, finned, prog, stack, res, sdl, hist, clh>>
 Suspended == phase = "running" /\ wake > now
 \* the timers of the enclosing Timeout fangs that are due, as stack positions
 DueTimers == {j \in DOMAIN stack : stack[j][1] = "timer" /\ stack[j][3] =< now}
@@ -265,31 +265,31 @@ Fire == /\ EAGER_CANCEL /\ Suspended /\ DueTimers # {}
         /\ LET j == CHOOSE x \in DueTimers : \A y \in DueTimers : y =< x IN
            /\ hist' = hist \o <<Ev(now, "fire", stack[j][2], 0)>> \o DropsOfStack(SubSeq(stack, j + 1, Len(stack)))
            /\ stack' = SubSeq(stack, 1, j - 1) /\ res' = "timeout" /\ wake' = -1 /\ pc' = AfterDisarm(stack[j][2])
-        /\ UNCHANGED <<scn, now, phase, k, nsent, finned, prog, sdl, clh>>
+        /\ UNCHANGED <<scn, now, phase, np, nsent, finned, prog, sdl, clh>>
 \* Router::handle returned
 Handled == /\ phase = "running" /\ wake = -1 /\ pc > Len(prog) /\ phase' = "handled" /\ Log("handled", StatusOf(res), 0)
-           /\ UNCHANGED <<scn, now, k, nsent, finned, prog, pc, wake, stack, res, sdl, clh>>
+           /\ UNCHANGED <<scn, now, np, nsent, finned, prog, pc, wake, stack, res, sdl, clh>>
 \* Response::send finished (the responses of this model fit into the socket buffer: the write never suspends)
 Sent == /\ phase = "handled"
-        /\ clh' = clh \o <<Ev(now, "resp", StatusOf(res), CodeOf(res, k))>> \o (IF scn.conn[k].close = 1 THEN <<Ev(now, "eof", 0, 0)>> ELSE <<>>)
-        /\ hist' = hist \o <<Ev(now, "sent", 0, 0)>> \o (IF scn.conn[k].close = 1 THEN <<Ev(now, "returned", 0, 0)>> ELSE <<>>)
-        /\ phase' = (IF scn.conn[k].close = 1 THEN "closed" ELSE "idle")
-        /\ UNCHANGED <<scn, now, k, nsent, finned, prog, pc, wake, stack, res, sdl>>
+        /\ clh' = clh \o <<Ev(now, "resp", StatusOf(res), CodeOf(res, np))>> \o (IF scn.conn[np].close = 1 THEN <<Ev(now, "eof", 0, 0)>> ELSE <<>>)
+        /\ hist' = hist \o <<Ev(now, "sent", 0, 0)>> \o (IF scn.conn[np].close = 1 THEN <<Ev(now, "returned", 0, 0)>> ELSE <<>>)
+        /\ phase' = (IF scn.conn[np].close = 1 THEN "closed" ELSE "idle")
+        /\ UNCHANGED <<scn, now, np, nsent, finned, prog, pc, wake, stack, res, sdl>>
 \* the session's own timeout_in: consulted only when the loop is suspended (in a read without bytes, or inside the onion) and no
 \* inner timer is due (those are polled first).  Simultaneous independent events: the client's go first.
-ReadBlocked == phase = "reading" /\ nsent = k /\ ~finned
+ReadBlocked == phase = "reading" /\ nsent = np /\ ~finned
 SessionFire == /\ (ReadBlocked \/ (Suspended /\ (~EAGER_CANCEL \/ DueTimers = {}))) /\ sdl =< now /\ ~ClientSendDue /\ ~ClientFinDue
                /\ hist' = hist \o <<Ev(now, "sfire", 0, 0)>> \o DropsOfStack(stack) \o <<Ev(now, "returned", 0, 0)>>
                /\ clh' = Append(clh, Ev(now, "eof", 0, 0))
                /\ phase' = "closed" /\ stack' = <<>> /\ wake' = -1
-               /\ UNCHANGED <<scn, now, k, nsent, finned, prog, pc, res, sdl>>
+               /\ UNCHANGED <<scn, now, np, nsent, finned, prog, pc, res, sdl>>
 \* time passes only when nothing else can happen
 Tick == /\ ~ClientSendDue /\ ~ClientFinDue
         /\ (ReadBlocked \/ Suspended)
         /\ ~(EAGER_CANCEL /\ Suspended /\ DueTimers # {})
         /\ sdl > now
         /\ now' = now + 1
-        /\ UNCHANGED <<scn, phase, k, nsent, finned, prog, pc, wake, stack, res, sdl, hist, clh>>
+        /\ UNCHANGED <<scn, phase, np, nsent, finned, prog, pc, wake, stack, res, sdl, hist, clh>>
 
 Server == ReadStart \/ ReadDone \/ ReadEof \/ Parsed \/ Exec \/ Wake \/ Fire \/ Handled \/ Sent \/ SessionFire
 Steps == ClientSend \/ ClientFin \/ Server \/ Tick
